@@ -59,7 +59,7 @@ ASSUMPTIONS = [
     'not modelled: async / generator operations (internal Trigger), plain attribute access (`expr.attr`; on the clean tree `m = z.imag; m + 1` resets `m._method` so that `m.rx.value` is then the whole object - verified by hand, outside this model), kwargs, raw bound functions (not wrapped in rx) as operands, rx.when/buffer/updating/resolve, batched updates of several parameters',
     'an input update is atomic for precedence -1 watchers (all invalidations run before any precedence 0 consumer) - checked by correspondence, not proved',
     'operator_table_complete (over the generated RxOps table) lives in the same module as the other theorems: a broken table makes the whole module fail to build, so the evidence then reports every C09 obligation as undischarged, not only that one',
-    'the full statement is false of the code (C09_full_refuted); what is proved is C09_partial under H1 (no where result handed to a consumer), H2 (EqOK: every update that is_equal takes for unchanged stores the same value - a hypothesis on the history, satisfiable for Python\'s Comparator), H3 (no exception escapes an input update) - three of the known findings; the fourth (`x in expr`) is mirrored by the model as written (Stmt.isin) and flagged by the oracle',
+    'the full statement is false of the code (C09_full_refuted); what is proved is C09_partial under H1 (no where result handed to a consumer), H2 (EqOK: every update that is_equal takes for unchanged stores the same value - a hypothesis on the history, satisfiable for Python\'s Comparator), H3 (no exception escapes an input update) - the three known findings; `x in expr` (Stmt.isin) must be the plain-Python result or be refused with TypeError (rx.__contains__ since /repo c09ac3d), never a wrong bool',
     'helpers_table_complete / operator_table_complete certify which function each helper / dunder hands to _apply_operator (generated tables); that the driver (formOp) and the harness (_apply_form, _sem) use the same functions is tied by correspondence',
 ]
 RULE = ('corpus + directed prefix (every API form on a root of each type with literal / rx / Parameter operand, error-recovery, shared '
@@ -720,7 +720,7 @@ class _Gen:
         for n in self.sh.user[-4:]:
             self.prog.append({'s': 'read', 'n': n})
         if rng.random() < 0.05:
-            # the plain `in` operator (known finding) - last, so that it cannot mask anything else
+            # the plain `in` operator: must be the plain result or a refusal
             n = rng.choice(self.sh.user)
             self.prog.append({'s': 'isin', 'n': n, 'v': enc(_value(rng, 'str' if self.ntype.get(n) == 'str' else 'int'))})
         return {'prog': self.prog}
@@ -816,7 +816,7 @@ def _directed():
     out.append({'prog': [lit([1, 2, 1]), {'s': 'meth2', 'n': 0, 'op': 'index', 'args': [L(2)], 'args2': [L(7)]}, rd(3), rd(5),
                          st(0, [7]), rd(3), rd(5), {'s': 'meth2', 'n': 0, 'op': 'count', 'args': [L(7)], 'args2': [L(1)]}, rd(8), rd(10)]})
     out.append({'prog': [lit('ab'), {'s': 'meth2', 'n': 0, 'op': 'upper', 'args': [], 'args2': []}, rd(3), rd(5), st(0, 'c'), rd(5), rd(3)]})
-    # the plain `in` operator on an expression (known finding: rx has no __contains__)
+    # the plain `in` operator on an expression: refused with TypeError (fixed in /repo c09ac3d), never a wrong bool
     out.append({'prog': [lit([1, 2, 3]), {'s': 'isin', 'n': 0, 'v': 3}, {'s': 'isin', 'n': 0, 'v': 9}, st(0, []), {'s': 'isin', 'n': 0, 'v': 9},
                          st(0, 5), {'s': 'isin', 'n': 0, 'v': 5}, lit('abc'), op(1, 'add', L('d')), {'s': 'isin', 'n': 3, 'v': 'z'}]})
     # error, cached error, recovery; an error below a derived node
@@ -1084,10 +1084,6 @@ def classify(case, impl, fail):
     at = _failing_index(fail)
     if at is None:
         return None
-    if at < len(prog) and prog[at]['s'] == 'isin':
-        # the failing statement is `x in expr` itself and the implementation answered with a bool
-        o = impl['steps'][at] if at < len(impl['steps']) else {}
-        return 'in-operator-answers-nonempty' if o.get('k') == 'read' and isinstance(o.get('v'), bool) else None
     raised = [i for i, o in enumerate(impl['steps']) if o['k'] == 'set' and o.get('e')]
     if raised and raised[0] <= at:
         i = raised[0]
